@@ -26,7 +26,7 @@ RULE = ("Hypothesis draws a type program, options (additional_properties, aliase
         "single mutant of a valid datum and the schema has >= 2 applicator keywords.  Distinct = hash(type shape, datum shape, verdict).")
 ASSUMPTIONS = ["jsonschema 4.26 Draft 2020-12 semantics is the reference for 'standard JSON Schema semantics'; format is annotation-only there by default",
                "uniqueItems with bool/number mixes ([true, 1]) compares by Python equality in apischema and by JSON equality in the validator: data are generated so that both agree"]
-BUDGET = {"quick": 450, "thorough": 9000}
+BUDGET = {"quick": 1000, "thorough": 9000}
 SHARDS = {"quick": 8, "thorough": 16}
 MIN_NONTRIVIAL = {"quick": 1500, "thorough": 30000}
 TECHNIQUE = "property-based testing (Hypothesis): differential between deserialize and an external JSON Schema validator (jsonschema) on the generated schema"
